@@ -77,4 +77,56 @@ theorem env_perm (l1 l2 : List Imp) (hp : l1.Perm l2) (hnd : (l1.map Imp.bound).
       exact hx ⟨j, hp.mem_iff.mpr (List.mem_reverse.mp hj), hb⟩
     rw [h1, h2]
 
+theorem find?_filter_of_imp {α : Type} (p q : α → Bool) (l : List α) (h : ∀ a ∈ l, p a = true → q a = true) :
+    (l.filter q).find? p = l.find? p := by
+  induction l with
+  | nil => rfl
+  | cons a as ih =>
+    have ih' := ih (fun b hb => h b (List.mem_cons_of_mem _ hb))
+    by_cases hq : q a = true
+    · rw [List.filter_cons_of_pos hq, List.find?_cons, List.find?_cons, ih']
+    · have hp : p a = false := by
+        cases hpa : p a with
+        | false => rfl
+        | true => exact absurd (h a (List.mem_cons_self ..) hpa) hq
+      rw [List.filter_cons_of_neg hq, List.find?_cons, hp, ih']
+
+/-- **Removing import statements is safe for every name none of them binds** (unused-import removal, duplicate removal):
+for every list of statements and every selection -/
+theorem env_filter (imps : List Imp) (keep : Imp → Bool) (x : String)
+    (h : ∀ i ∈ imps, keep i = false → i.bound ≠ x) : env (imps.filter keep) x = env imps x := by
+  unfold env
+  rw [← List.filter_reverse]
+  rw [find?_filter_of_imp]
+  intro i hi hb
+  simp only [beq_iff_eq] at hb
+  cases hk : keep i with
+  | true => rfl
+  | false => exact absurd hb (h i (List.mem_reverse.mp hi) hk)
+
+/-- **A shadowed import can go**: a statement whose name is bound again later contributes nothing -/
+theorem env_remove_shadowed (a b : List Imp) (i : Imp) (h : ∃ j ∈ b, j.bound = i.bound) (x : String) :
+    env (a ++ i :: b) x = env (a ++ b) x := by
+  unfold env
+  simp only [List.reverse_append, List.reverse_cons, List.find?_append, List.append_assoc]
+  by_cases hx : i.bound = x
+  · obtain ⟨j, hj, hji⟩ := h
+    have : (b.reverse.find? (fun k => k.bound == x)).isSome = true := by
+      rw [List.find?_isSome]
+      exact ⟨j, List.mem_reverse.mpr hj, by simp [hji, hx]⟩
+    cases hf : b.reverse.find? (fun k => k.bound == x) with
+    | none => rw [hf] at this; cases this
+    | some v => simp
+  · have hne : (i.bound == x) = false := by simpa using hx
+    simp [List.find?_cons, hne]
+
+/-- the names in `used` are bound to the same objects by both lists (decidable: what the validator evaluates) -/
+def agreeOn (used : List String) (a b : List Imp) : Bool := used.all (fun x => decide (env a x = env b x))
+
+theorem agreeOn_sound (used : List String) (a b : List Imp) (h : agreeOn used a b = true) :
+    ∀ x ∈ used, env a x = env b x := by
+  intro x hx
+  simp only [agreeOn, List.all_eq_true, decide_eq_true_eq] at h
+  exact h x hx
+
 end Imports
